@@ -188,6 +188,48 @@ CLAIMED = {
         note='Trusted: syn parse; the book (lang/string_literals.md).',
         technique='static analysis: construction-site rules, guard-before-slice, unit (byte vs code point) discipline, table agreement with the book — on the syntax tree',
         design='2/C18'),
+    'C10': dict(
+        level='other',
+        text='A loop inventory on resolved MIR: every natural loop (back edge) of the builtin and utility bodies (82) is classified as budgeted '
+             '(its iterator type contains the search budget), finite-structural (iterates an existing in-memory collection, a usize range or a '
+             'take(n)), or listed with a termination reason; inside the generator iterator every adaptor that can discard unboundedly many items '
+             'per step is over a finite outer, calls a user function per item (so the call limit bounds it) or is reported; generator consumption '
+             'and core::search are zipped with the search budget and propagate its violation; the timeout gate has the shape deadline > now and '
+             'dominates every user frame. One known finding (unbudgeted skip). NOT decided: wall-clock bounds, cost of library calls, loops over '
+             'sequences of finite but astronomically large logical length (bounded by the size limit only).',
+        note='Trusted: rustc MIR (back edges), std iterator type names denote what they iterate; termination reasons in rules/c10.py LOOP_OK confirmed by reading.',
+        technique='static analysis: natural-loop inventory with type-based iterator classification on resolved MIR; adaptor inventory; shape rules',
+        design='2/C10'),
+    'C15': dict(
+        level='other',
+        text='Immutability is decided completely (type-closure audit: no interior mutability, raw pointers, Rc::get_mut/make_mut or unsafe '
+             'outside the audited utilities can reach a value, so no operation alters a sequence it was applied to). Structural clauses of the '
+             'representations: natives hand XSequence::get only indices produced by value_to_idx (whose negative / infinite / unrepresentable '
+             '/ out-of-range exits are checked); Chain and Slice literals occur only inside their invariant-keeping constructors and a slice of '
+             'a slice is flattened by adding offsets; the Range literal is built only after the zero-step and emptiness tests. NOT decided: '
+             'agreement of len/get/slice/... with list semantics for all compositions (value level).',
+        note='Trusted: rustc MIR, syn parse.',
+        technique='static analysis: type-closure immutability audit; who-constructs rules; backward slice from index operands; dominance of guards — on resolved MIR',
+        design='2/C15'),
+    'C16': dict(
+        level='other',
+        text='Re-iterability follows from the immutability audit plus _iter(&self) never writing through self; laziness is decided as the absence '
+             'of absorbing adaptors (collect, count, last, fold, ...) on inner generator iterators anywhere in the _iter family; the slice '
+             'dimensions are consistent between the merging constructor (absolute end, inner start added) and the consumer (skip(start), '
+             'take(end - start)). NOT decided: element-wise agreement with list pipelines.',
+        note='Trusted: rustc MIR, syn parse, laziness of std iterator adaptors.',
+        technique='static analysis: immutability audit, adaptor inventory over the iterator-construction bodies (MIR), producer/consumer agreement (syntax tree)',
+        design='2/C16'),
+    'C19': dict(
+        level='other',
+        text='Table agreement of the derived relational operators (lt/gt/le/ge = is_negative / is_positive / !is_positive / !is_negative of cmp, '
+             'ne = !eq, xcmp = -1/0/1); tuple derivations pair components by one forward zip after an arity test and stop at the first deciding '
+             'component; and a typestate check of the unsafe fallible merge sort / heap on MIR: every bitwise duplication is followed by the '
+             'construction of a Drop guard before any comparator call or return, guards implement Drop and are never forgotten - so a comparator '
+             'failing midway loses or duplicates no element. NOT decided: equivalence / total-order laws, format-specifier semantics, that the sort sorts.',
+        note='Trusted: rustc MIR, syn parse.',
+        technique='static analysis: table agreement on the syntax tree; typestate (duplicate -> guard -> compare) on resolved MIR of the unsafe utilities',
+        design='2/C19'),
 }
 
 NA_REASONS = {
